@@ -331,6 +331,33 @@ class GcAt(object):
         return False
 
 
+STACK_LIMIT = 400
+
+
+class StackLimit(object):
+    """Stack exhaustion as a fault, in a safe regime: the recursion limit is lowered only while library code is
+    *running* (inside next() / a whole-validation call) and is back to normal whenever iterators are closed,
+    dropped or collected.  Near the interpreter's real limits the cascade that finalises a chain of several
+    hundred nested generators is itself fatal to CPython 3.12 ("Cannot recover from stack overflow"), with or
+    without jsonschema; that regime says nothing about the library and is never entered."""
+
+    def __init__(self, active):
+        self.active = active
+
+    def __enter__(self):
+        if self.active:
+            import sys
+            self.old = sys.getrecursionlimit()
+            sys.setrecursionlimit(STACK_LIMIT)
+        return self
+
+    def __exit__(self, *a):
+        if self.active:
+            import sys
+            sys.setrecursionlimit(self.old)
+        return False
+
+
 class _NoCtx(object):
     def __enter__(self):
         return self
@@ -342,8 +369,9 @@ class _NoCtx(object):
 class IterTask(object):
     """A live error iterator of one actor, steppable one next() at a time."""
 
-    def __init__(self, actor, instance, validator=None):
+    def __init__(self, actor, instance, validator=None, low_stack=False):
         self.actor = actor
+        self.low_stack = low_stack
         self.it = (validator or actor.validator).iter_errors(instance)
         self.errs = []
         self.done = False
@@ -355,7 +383,8 @@ class IterTask(object):
             return False
         self.steps += 1
         try:
-            e = next(self.it)
+            with StackLimit(self.low_stack):
+                e = next(self.it)
         except StopIteration:
             self.done = True
             self.it = None
@@ -407,24 +436,29 @@ def do_op(actor, op, instances):
     actor.activate()
     actor.collab.begin(op.get("collab"))
     inst = None
+    deep = False
     if "inst" in op:
-        inst = materialise(instances[op["inst"]], actor.world)
+        spec = instances[op["inst"]]
+        deep = isinstance(spec, dict) and list(spec) == ["$deep"]
+        inst = materialise(spec, actor.world)
         inst0 = fast(inst)
     out = None
     ctx = GcAt(actor, op["gc_at"]) if op.get("gc_at") else _NoCtx()
     try:
       with ctx:
           if kind == "is_valid":
-              out = {"k": "bool", "v": bool(v.is_valid(inst))}
+              with StackLimit(deep):
+                  out = {"k": "bool", "v": bool(v.is_valid(inst))}
           elif kind == "exhaust":
-              t = IterTask(actor, inst, v)
+              t = IterTask(actor, inst, v, low_stack=deep)
               t.take(10 ** 6)
               out = t.outcome()
           elif kind == "validate":
-              v.validate(inst)
+              with StackLimit(deep):
+                  v.validate(inst)
               out = {"k": "none"}
           elif kind in ("take_close", "take_drop", "take_cycle"):
-              t = IterTask(actor, inst, v)
+              t = IterTask(actor, inst, v, low_stack=deep)
               t.take(op["k"])
               d = actor.depth()
               if t.suspended():
@@ -453,22 +487,25 @@ def do_op(actor, op, instances):
               out = {"k": "none"}
           elif kind == "tree":
               from jsonschema.exceptions import ErrorTree
-              tree = ErrorTree(v.iter_errors(inst))
+              with StackLimit(deep):
+                  tree = ErrorTree(v.iter_errors(inst))
               out = {"k": "value", "v": tree.total_errors}
           elif kind == "best_match":
               from jsonschema.exceptions import best_match
-              e = best_match(v.iter_errors(inst))
+              with StackLimit(deep):
+                  e = best_match(v.iter_errors(inst))
               out = {"k": "value", "v": None if e is None else canon_error(e)}
               e = None
           elif kind == "consumer_raises":
               n = 0
-              for e in v.iter_errors(inst):
-                  if n >= op["k"]:
-                      e = None
-                      if actor.depth() >= 2:
-                          actor.probe("consumer_died_with_scopes_pushed")
-                      raise ConsumerDied()
-                  n += 1
+              with StackLimit(deep):
+                  for e in v.iter_errors(inst):
+                      if n >= op["k"]:
+                          e = None
+                          if actor.depth() >= 2:
+                              actor.probe("consumer_died_with_scopes_pushed")
+                          raise ConsumerDied()
+                      n += 1
               out = {"k": "value", "v": n}
           elif kind == "resolve":
               url, resolved = r.resolve(op["ref"])
